@@ -219,8 +219,8 @@ def check(ctx, prog, stats, samples):
         def beats(x, y):
             if x["prio"] != y["prio"]:
                 return x["prio"] > y["prio"]
-            if slots(x) == slots(y):
-                return order[x["id"]] > order[y["id"]]
+            if slots(x) == slots(y) and x["npos_req"] == y["npos_req"]:
+                return order[x["id"]] > order[y["id"]]      # the very same signature: the later definition replaces the earlier
             return all(le(a, c) for a, c in zip(slots(x), slots(y)))
         win = [x for x in app if all(beats(x, y) for y in app if y is not x)]
         exp = ["nomethod"] if not app else ["run", win[0]["id"]] if len(win) == 1 else ["ambig"]
